@@ -50,6 +50,7 @@ import (
 	"math"
 	"regexp"
 	"sort"
+	"strings"
 	"sync"
 
 	"github.com/google/licenseclassifier/stringclassifier/internal/pq"
@@ -112,7 +113,6 @@ func New(threshold float64, funcs ...NormalizeFunc) *Classifier {
 type knownValue struct {
 	key             string
 	normalizedValue string
-	reValue         *regexp.Regexp
 	set             *searchset.SearchSet
 }
 
@@ -128,7 +128,6 @@ func (c *Classifier) AddValue(key, value string) error {
 	c.values[key] = &knownValue{
 		key:             key,
 		normalizedValue: norm,
-		reValue:         regexp.MustCompile(norm),
 	}
 	return nil
 }
@@ -146,7 +145,6 @@ func (c *Classifier) AddPrecomputedValue(key, value string, set *searchset.Searc
 	c.values[key] = &knownValue{
 		key:             key,
 		normalizedValue: value,
-		reValue:         regexp.MustCompile(value),
 		set:             set,
 	}
 	return nil
@@ -360,17 +358,24 @@ func newMatcher(unknown string, threshold float64) *matcher {
 // are the best matches.
 func (m *matcher) findMatches(known *knownValue) {
 	var mrs []searchset.MatchRanges
-	if all := known.reValue.FindAllStringIndex(m.normUnknown, -1); all != nil {
+	if all := findAllIndex(m.normUnknown, known.normalizedValue); all != nil {
 		// We found exact matches. Just use those!
 		for _, a := range all {
-			var start, end int
+			// Map the byte range of the occurrence onto the tokens it touches.
+			start, end := -1, -1
 			for i, tok := range m.unknown.Tokens {
-				if tok.Offset == a[0] {
-					start = i
-				} else if tok.Offset >= a[len(a)-1]-len(tok.Text) {
-					end = i
+				if tok.Offset >= a[1] {
 					break
 				}
+				if tok.Offset+len(tok.Text) > a[0] {
+					if start < 0 {
+						start = i
+					}
+					end = i
+				}
+			}
+			if start < 0 {
+				continue
 			}
 
 			mrs = append(mrs, searchset.MatchRanges{{
@@ -404,6 +409,24 @@ func (m *matcher) findMatches(known *knownValue) {
 		}(mr)
 	}
 	wg.Wait()
+}
+
+// findAllIndex returns the byte ranges of all non-overlapping occurrences of
+// sub in s, or nil if there are none.
+func findAllIndex(s, sub string) [][]int {
+	if sub == "" {
+		return nil
+	}
+	var all [][]int
+	for off := 0; ; {
+		i := strings.Index(s[off:], sub)
+		if i < 0 {
+			break
+		}
+		all = append(all, []int{off + i, off + i + len(sub)})
+		off += i + len(sub)
+	}
+	return all
 }
 
 // withinConfidenceThreshold returns the Confidence we have in the potential
